@@ -44,7 +44,7 @@ def main():
             m = re.search(re.escape(base) + r"\s+(\S+)", text)
             if m:
                 cand = m.group(1).rstrip(";")
-                cand = re.sub(r"^/tmp/m[23456]?/C\d+/repo/?", "", cand)
+                cand = re.sub(r"^/tmp/m[234567]?/C\d+/repo/?", "", cand)
                 if cand not in ("", ".", "&&") and os.path.isdir(os.path.join(wt, cand)):
                     dest = cand
             pk = re.search(r"^package\s+(\w+)", open(d, errors="replace").read(), flags=re.M).group(1)
